@@ -1,4 +1,4 @@
-import MpVerif.C05.Model
+import MpVerif.C05.Spec
 import MpVerif.C14.Lemmas
 /-! # C05 — line-level lemmas: what the reader does with a line the writer printed -/
 namespace MpVerif.C05
@@ -62,15 +62,6 @@ theorem crlfCut_line (l : Bytes) (h10 : ∀ c ∈ l, c ≠ 10) (hcr : l.getLast?
       simp only [this, if_false]
       rw [ih hcs (by simpa [List.getLast?_cons_cons] using hcr)]
 
-/-- a message line as the reader must find it: non-empty, fits the 512-byte buffer, no NUL / LF inside,
-does not start with a backspace, does not end with CR -/
-structure GoodLine (l : Bytes) : Prop where
-  nonempty : l ≠ []
-  short : l.length ≤ 510
-  clean : ∀ c ∈ l, c ≠ 10 ∧ c ≠ 0
-  nobs : l.head? ≠ some 8
-  nocr : l.getLast? ≠ some 13
-
 theorem msgText_lines (ls : List Bytes) (h : ∀ l ∈ ls, GoodLine l) (rest : Bytes) (st : MsgState) (hbs : st.bs = true)
     (f : Nat) (hf : ls.length < f) :
     msgText f (ls.flatMap (· ++ [10]) ++ 10 :: rest) st = .ok (⟨st.msg ++ ls.flatMap (· ++ [10]), st.nbs, true⟩, rest) := by
@@ -110,14 +101,6 @@ theorem msgText_lines (ls : List Bytes) (h : ∀ l ∈ ls, GoodLine l) (rest : B
       simp [List.append_assoc]
 
 /-! ## vectors of reals -/
-
-/-- the explicit codec hypothesis on the text printed for a finite real: one line, no NUL, and
-`decstring` consumes exactly that text (checked on every real of every run by the driver; the numeric
-side `strtod (enc x) ≈ x` is tested by the harness) -/
-structure GoodNum (t : Bytes) : Prop where
-  short : t.length ≤ 500
-  clean : ∀ c ∈ t, c ≠ 10 ∧ c ≠ 0
-  dec : decstring (t ++ [10]) = some t
 
 theorem goodNumB_sound (t : Bytes) (h : goodNumB t = true) : GoodNum t := by
   simp only [goodNumB, Bool.and_eq_true, decide_eq_true_eq, List.all_eq_true, bne_iff_ne, ne_eq, beq_iff_eq] at h
